@@ -1,5 +1,6 @@
 SPECIFICATION Spec
 CONSTANT MaxEdits = 1
+CONSTANT MCBases = {"meta1", "p4d", "p8x", "mLangmuir", "mHenry"}
 INVARIANT InvWellFormed
 INVARIANT InvEffective
 INVARIANT InvImplSensitive
